@@ -98,6 +98,19 @@ inline MarchResult march(const RefGrid &G, const double p[3], const double dir[3
   }
   CellBox prev;
   bool have_prev = false;
+  {
+    // the cell the start point belongs to in the half-open sense (what a
+    // position query returns); a ray that starts on a periodic face and heads
+    // out is wrapped before its first step and "leaves" this cell
+    bool inside = true;
+    for (int i = 0; i < 3; ++i)
+      inside &= x[i] >= G.A[i] && x[i] < G.A[i] + G.S[i];
+    if (inside && G.locate) {
+      const int zero[3] = {0, 0, 0};
+      G.locate(x, zero, prev);
+      have_prev = true;
+    }
+  }
   for (;;) {
     // leave or wrap
     bool out = false, wrapped_now = false;
